@@ -61,6 +61,7 @@ def witness_cases(rng):
         c.fields = [(nm, "witness", 1, 1, False, False) for nm in names]
         c.raws = [(0, "a", 1, 0, 0)]
         c.ref = c.raws[0]
+        c.lb = -1
         return c
     a20 = list(range(1, 21))
     W.append(mk(900101, "a RAW FLOAT64 3\nb RAW FLOAT64 2\nm MULTIPLY a b\n", {"a": a20, "b": [1]},
